@@ -56,8 +56,8 @@ impl Prop for C14 {
     }
     fn runs(&self, tier: Tier) -> u64 {
         match tier {
-            Tier::Quick => SWEEP + 15_000,
-            Tier::Thorough => SWEEP + 600_000,
+            Tier::Quick => SWEEP + 300_000,
+            Tier::Thorough => SWEEP + 6_000_000,
             Tier::Tiny => 300,
         }
     }
